@@ -323,6 +323,16 @@ def oracle(ctx: Ctx, case, res, origin):
                 fail(f"altered:chain:{kindname}:{'ok' if out == 'Ok' else 'refused'}", i,
                      f"{a} ({out}): chain {c} was {ch}, now {Tchain.get(c, [])}")
 
+        # -- "importing an export of any selection ... yields": with nothing in the target there is nothing to conflict
+        #    with, so a well-formed request must be carried out
+        pre_empty = not any(pre[k] for k in ("dims", "types", "colls", "dsets"))
+        if out != "Ok" and pre_empty and all(n in Sds and Scont.get(n, UNSTORED) < LOST for n in ids):
+            if kindname == "ExIm" and all(c in Skind for c in saved) and \
+                    all(ch in saved or ch in {Sds[n][3] for n in ids} for c in saved for ch in Schain.get(c, [])):
+                fail("refused-without-conflict:ExIm", i, f"{a} into an empty target was refused: {out} {st['msg'][:200]}")
+            if kindname == "Xfer" and a[3] and a[4] and a[2] != "direct":
+                fail("refused-without-conflict:Xfer", i, f"{a} into an empty target was refused: {out} {st['msg'][:200]}")
+
         # -- "conflicting definitions are refused rather than merged"
         if out == "Ok":
             for n in moved:
